@@ -162,8 +162,12 @@ def check_op(name: str, case: dict) -> Optional[Tuple[str, str]]:
     kinky = name.startswith("spatial.")
     coarse = (4e-3, 5e-3, 5e-2 if kinky else 1.5e-2)
     mid = (1e-5, 2e-3, 3e-2 if kinky else 6e-3)
+    # transform stacks interpolate with float32 grid coordinates (Grid.coords() is float32, grid_sample casts the field to
+    # it) although parameters and result are float64: the float64 step 1e-6 then differences rounding noise of relative
+    # size 1e-7 / 1e-6 (measured: central differences of one direction wander by 2 % between h = 1e-5, 1e-6, 1e-7), and
+    # two noisy estimates can agree by chance. Such operations start at the mid step.
     levels = [OP_STEP[name]] if name in OP_STEP else (
-        [coarse] if casts else [(1e-6, 2e-5, 6e-5)] + ([mid] if kinky else [coarse]))
+        [coarse] if casts else ([mid, coarse] if kinky else [(1e-6, 2e-5, 6e-5), coarse]))
     for n, x, g in zip(names, [leaves[n] for n in names], grads):
         # finite differences along two dense random directions and three single coordinates
         dirs: List[Tensor] = []
